@@ -24,12 +24,12 @@ let c15_addr (s : string) =
   match String.index_opt s '-' with
   | Some 1 ->
     let h = String.sub s 2 (String.length s - 2) in
-    if s.[0] = '4' && String.length h = 8 then A4 (n_of_hexstr h)
-    else if s.[0] = '6' && String.length h = 32 then A6 (n_of_hexstr h)
+    if s.[0] = '4' && String.length h = 8 then LA4 (n_of_hexstr h)
+    else if s.[0] = '6' && String.length h = 32 then LA6 (n_of_hexstr h)
     else failwith ("bad addr " ^ s)
-  | _ -> if s = "none" then ANone else failwith ("bad addr " ^ s)
+  | _ -> if s = "none" then LANone else failwith ("bad addr " ^ s)
 let c15_fmt_addr a : string =
-  match a with A4 x -> "4-" ^ hex_of_n 8 x | A6 x -> "6-" ^ hex_of_n 32 x | ANone -> "none"
+  match a with LA4 x -> "4-" ^ hex_of_n 8 x | LA6 x -> "6-" ^ hex_of_n 32 x | LANone -> "none"
 
 let c15_opts f =
   { o_limit = z_of_int (ifld f "rate"); o_burst = z_of_int (ifld f "burst");
@@ -137,18 +137,18 @@ let run_admit (parts : string list) : string =
   let query l a =
     (* connection-oriented listeners: the connection cost is charged when the client's connection is opened *)
     let key = (l, c15_fmt_addr a) in
-    let need_conn = (match l with LTcp | LQuic -> not (List.mem key !conns) | _ -> false) in
+    let need_conn = (match l with LmTcp | LQuic -> not (List.mem key !conns) | _ -> false) in
     let ok = if need_conn then (match do_step (AConn (l, a)) with
       | OAccepted -> conns := key :: !conns; true | _ -> false) else true in
     if not ok then out := "CLOSED" :: !out
     else out := name (do_step (AQuery (l, a, false))) :: !out in
   List.iter (fun st ->
     match String.split_on_char ':' st with
-    | ["uq"; a] -> query LUdp (c15_addr a)
-    | ["tq"; a] -> query LTcp (c15_addr a)
+    | ["uq"; a] -> query LmUdp (c15_addr a)
+    | ["tq"; a] -> query LmTcp (c15_addr a)
     | ["qq"; a] -> query LQuic (c15_addr a)
-    | ["hc"; a] -> out := name (do_step (AConn (LHttp, c15_addr a))) :: !out
-    | ["hq"; a] -> out := name (do_step (AQuery (LHttp, c15_addr a, false))) :: !out
+    | ["hc"; a] -> out := name (do_step (AConn (LmHttp, c15_addr a))) :: !out
+    | ["hq"; a] -> out := name (do_step (AQuery (LmHttp, c15_addr a, false))) :: !out
     | _ -> failwith ("bad step " ^ st)) (split_on ',' (fld f "steps"));
   "out=" ^ String.concat "," (List.rev !out)
 
